@@ -12,6 +12,12 @@ import time
 
 VERIF = os.path.dirname(os.path.dirname(os.path.abspath(__file__)))
 REPO = "/repo"
+OUTV = VERIF  # where seeded/ results are stored
+if os.environ.get("SEED_SCRATCH"):
+    # run against the scratch copies made by tools/scratch.sh (leaves /repo alone)
+    VERIF = "/tmp/vscratch"
+    REPO = "/tmp/rscratch"
+    os.environ["TZSIM_REPO"] = REPO
 
 
 def sh(argv, cwd=None, env=None, timeout=3600):
@@ -77,7 +83,7 @@ def main():
         # run my check against it
         st, o = sh(["git", "-C", REPO, "status", "--porcelain"])
         if o.strip():
-            raise SystemExit("/repo is not clean")
+            raise SystemExit(REPO + " is not clean")
         t0 = time.time()
         try:
             rc, o = sh(["git", "-C", REPO, "apply", d])
@@ -89,7 +95,7 @@ def main():
                                  "oracles": [l[:400] for l in o.splitlines() if l.startswith("violated oracle")][:4], "harness_errors": [l[:300] for l in o.splitlines() if l.startswith("HARNESS-ERROR")][:3], "wall_s": round(time.time() - t0, 1)}
         finally:
             sh(["git", "-C", REPO, "checkout", "--", "."])
-        dest = os.path.join(VERIF, "seeded", f"{prop}-{os.path.basename(out.rstrip('/')).replace('-out', '')}-{n}")
+        dest = os.path.join(OUTV, "seeded", f"{prop}-{os.path.basename(out.rstrip('/')).replace('-out', '')}-{n}")
         os.makedirs(dest, exist_ok=True)
         shutil.copy(d, os.path.join(dest, "patch.diff"))
         for ext in ("_demo.rs", "_demo.sh", ".md"):
